@@ -204,6 +204,9 @@ func (t *Trial) CheckLinearizable(finals map[int]linOut, timeout time.Duration) 
 			if r.ROk && !(r.Kind == KGet && r.LEnter != 0) && !isWaiter(r) {
 				observed[r.RV] = true
 			}
+			if (r.Kind == KSet || r.Kind == KSetIfAbsent) && !r.ROk {
+				observed[r.RV] = true // the value these calls found
+			}
 			if r.SawOk {
 				observed[r.SawOld] = true
 			}
